@@ -199,12 +199,14 @@ func (c *ConnectorOrchestrator) Update(ctx context.Context, id string, plugin st
 	}
 
 	oldConfig := conn.Config
+	oldPlugin := conn.Plugin
 	conn, err = c.connectors.Update(ctx, id, plugin, config)
 	if err != nil {
 		return nil, err
 	}
 	r.Append(func() error {
-		_, err = c.connectors.Update(ctx, id, conn.Plugin, oldConfig)
+		// conn is the updated instance by now: restore the plugin it had before
+		_, err = c.connectors.Update(ctx, id, oldPlugin, oldConfig)
 		return err
 	})
 	err = txn.Commit()
